@@ -16,7 +16,11 @@ RULE = (
     "jacobian), inverse without root finding, inverse with root finding (fixed point lattice), and histories "
     "(all sequences of <=3 (4) calls of image2sky / sky2image(find,distort) / get_jacobian on one object, "
     "from a fresh and from an already-fitted object, each result compared with the same call on a fresh "
-    "object).  non-trivial = header has a distortion model, a polar/seam reference point or an off-image CRPIX."
+    "object); several-objects: all histories (<=4 (5) events) of a world of up to 3 live WCS objects of kinds "
+    "{TAN, TPV, rescaled TPV, SIP} - build another object / image2sky / sky2image(find=False) on any live "
+    "object - each history run in a pristine forked process, results compared with the FITS reference and "
+    "with the same call as the only call of a process (state leaking between objects through module-level "
+    "data).  non-trivial = header has a distortion model, a polar/seam reference point or an off-image CRPIX."
 )
 ASSUMPTIONS = [
     "reference: FITS-WCS paper II gnomonic de-projection + TPV polynomial (PV1_3/PV2_3 radial terms absent) + SIP, evaluated in long double",
@@ -318,3 +322,37 @@ def main(ctx):
         roots = [(), (("s2i", False, True),)]
         ctx.histories("histories(%s)" % hname, roots, make_execute(hname), depth=depth,
                       nodedup_depth=ctx.pick(3, 3), bounds=dict(ops=[str(o) for o in OPS], depth=depth))
+
+    # ------------------------------------------- several live objects (process-wide state)
+    # World = up to 3 WCS objects alive in ONE process (mc/worlds.py): ("new", kind) builds another object,
+    # ("i2s", k) / ("s2i", k) convert with object k (s2i without root finding: it fits the lazy inverse).
+    from mc.worlds import object_world
+    KINDS = {
+        "tan": W.make_header("TAN", (359.9999, 89.99), 0.27, 30.0, False, (1024.0, 2048.0)),
+        "tan2": W.make_header("TAN", (10.0, 20.0), 0.05, 200.0, True, (1.0, 1.0)),
+        "tpv": dict(W.DECAM),
+        "tpvs": W.make_header("TPVS", (10.0, 20.0), 0.27, 30.0, False, (1024.0, 2048.0)),
+        "sip": W.make_header("SIP2", (10.0, 20.0), 0.27, 30.0, False, (500.0, 600.0)),
+    }
+    kinds = ctx.pick(["tan", "tpv", "tpvs", "sip"], ["tan", "tan2", "tpv", "tpvs", "sip"])
+
+    def w_do(w, kind, op):
+        px, py = np.array(P[0]), np.array(P[1])
+        if op[0] == "i2s":
+            return [np.asarray(v, dtype="f8") for v in w.image2sky(px, py)]
+        sky = [np.asarray(v, dtype="f8") for v in W.forward(KINDS[kind], P[0], P[1])]
+        return [np.asarray(v, dtype="f8") for v in w.sky2image(sky[0], sky[1], find=False)]
+
+    def w_check(kind, op, res):
+        if op[0] == "i2s":
+            rr, dd = W.forward(KINDS[kind], P[0], P[1])
+            e = float(W.sep(res[0], res[1], rr, dd).max())
+            if not np.isfinite(e) or e > 1e-9:
+                return "image2sky differs from the FITS reference by %.3g deg" % e
+
+    def w_modules():
+        import esutil.wcsutil as wm
+        return [wm]
+
+    object_world(ctx, "several-objects", kinds, lambda kind: WCS(dict(KINDS[kind])), [("i2s",), ("s2i",)], w_do,
+                 w_modules, depth=ctx.pick(4, 5), check=w_check)
